@@ -106,25 +106,6 @@ Fixpoint latest_descr (l : list doc) (nm : name) : option descr :=
 Definition reported_cfg (E : env) (s : bstate) (o : obj) : option Z :=
   if dv_configurable (E o) then Some (dev_cfg s o) else None.
 
-(* finding class C16-a: a monitor callback fires although the descriptor its closure captured is no longer the
-   latest descriptor emitted for its stream (the stream was re-described, e.g. by configure) *)
-Definition stale_closure (tr : list doc) (s : bstate) (cb : nat) : bool :=
-  match dget (w_closures s) cb with
-  | Some (_, d) => negb (option_beq descr_beq (latest_descr tr (de_name d)) (Some d))
-  | None => false
-  end.
-Definition stale_fire (tr : list doc) (s : bstate) (o : op) : bool :=
-  match o with
-  | OMonEvent ob _ => existsb (fun oc => Nat.eqb (fst oc) ob && stale_closure tr s (snd oc)) (w_subs s)
-  | _ => false
-  end.
-Fixpoint finding_C16_a (E : env) (s : bstate) (tr : list doc) (h : list op) : bool :=
-  match h with
-  | [] => false
-  | o :: h' => stale_fire tr s o ||
-               finding_C16_a E (fst (fst (step E s o))) (tr ++ snd (fst (step E s o))) h'
-  end.
-
 (* the engine's own stream name "interruptions" used as a user stream name *)
 Definition uses_name0 (o : op) : bool :=
   match o with
@@ -134,30 +115,7 @@ Definition uses_name0 (o : op) : bool :=
   | _ => false
   end.
 
-(* every event is preceded by a descriptor with the uid it references, and that descriptor is the latest one
-   emitted for its stream at that point *)
-Definition events_use_latest (tr : list doc) : Prop :=
-  forall pre u de seq data filled post,
-    tr = pre ++ DEvent u de seq data filled :: post ->
-    exists d, In (DDescr d) pre /\ de_uid d = de /\ latest_descr pre (de_name d) = Some d.
-
 Definition no_name0 (h : list op) : Prop := forallb (fun o => negb (uses_name0 o)) h = true.
-
-(* decidable form of [events_use_latest] (scan with the prefix seen so far) *)
-Fixpoint events_use_latest_b (pre rest : list doc) : bool :=
-  match rest with
-  | [] => true
-  | x :: rest' =>
-      (match x with
-       | DEvent _ de _ _ _ =>
-           existsb (fun y => match y with
-                             | DDescr d => uid_eqb (de_uid d) de &&
-                                           option_beq descr_beq (latest_descr pre (de_name d)) (Some d)
-                             | _ => false
-                             end) pre
-       | _ => true
-       end) && events_use_latest_b (pre ++ [x]) rest'
-  end.
 
 (* C16, trace form: every event is preceded by a descriptor with the uid it references; that descriptor is the
    engine's own "interruptions" descriptor or the latest descriptor emitted for its stream at that point *)
